@@ -63,7 +63,16 @@ func ruleChan(c *Ctx) {
 			if ok {
 				c.ok(name, what, pos, why)
 			} else {
-				c.viol(name, what, pos, "the channel is closed by "+fnName(closes[f][0].fn)+" but this send is not ordered against the close by a flag under a common mutex: a late sender panics with 'send on closed channel' ("+why+")")
+				// a send wrapped in an unexported helper that does nothing else is reported at the functions that use the helper
+				names := []string{name}
+				if top := TopLevel(s.fn); top == s.fn && top.Object() != nil && !top.Object().Exported() && len(top.Blocks) == 1 && len(callsIn(top)) == 0 {
+					if cs := callerNames(p, top); len(cs) > 0 {
+						names = cs
+					}
+				}
+				for _, name := range names {
+					c.viol(name, what, pos, "the channel is closed by "+fnName(closes[f][0].fn)+" but this send is not ordered against the close by a flag under a common mutex: a late sender panics with 'send on closed channel' ("+why+")")
+				}
 			}
 		}
 	}
@@ -279,16 +288,16 @@ func ruleFIFO(fields ...string) func(c *Ctx) {
 // REC: recursion census (C02.5, C15.8, C16.1)
 
 var recTable = map[string]string{
-	"(*server.Subscription).populateResources":       "guard: state Sent/ToSend returns; ToSend stored before the descent (DOM/ref-shapes)",
-	"(*server.Subscription).populateResourcesLegacy": "guard: as populateResources (DOM/ref-shapes)",
-	"(*server.Subscription).ReleaseRPCResources":     "guard: stateSent returns; stateSent stored before the descent (DOM/ref-shapes)",
-	"(*server.Subscription).collectRefs + (*server.Subscription).onLoaded":              "guard: rcb.refMap marks visited subscriptions before the descent",
+	"(*server.Subscription).populateResources":                                             "guard: state Sent/ToSend returns; ToSend stored before the descent (DOM/ref-shapes)",
+	"(*server.Subscription).populateResourcesLegacy":                                       "guard: as populateResources (DOM/ref-shapes)",
+	"(*server.Subscription).ReleaseRPCResources":                                           "guard: stateSent returns; stateSent stored before the descent (DOM/ref-shapes)",
+	"(*server.Subscription).collectRefs + (*server.Subscription).onLoaded":                 "guard: rcb.refMap marks visited subscriptions before the descent",
 	"(*server.encoderJSON).encodeSubscription + (*server.encoderJSON).encodeValue":         "guard: containsString(e.path) and push of the own rid (PAIR/enc-path)",
 	"(*server.encoderJSONFlat).encodeSubscription + (*server.encoderJSONFlat).encodeValue": "guard: containsString(e.path) and push of the own rid (PAIR/enc-path)",
 	"(*server.Subscription).ReleaseRPCResources + (*server.Subscription).handleReaccess + (*server.Subscription).processCollectionEvent + (*server.Subscription).processEvent + (*server.Subscription).processModelEvent + (*server.Subscription).unqueueEvents": "subscription state machine: a nested unqueueEvents finds an empty queue (eventQueue = nil stored before the processing loop) and does not re-enter handleReaccess (flagReaccess cleared before loadAccess) — both checked below",
-	"(*server.Subscription).traverse":   "guard: gcStateStop returned for visited nodes by tryDelete's visitors (reviewed)",
-	"server.jsonEncodeError":            "recursion only on a marshal error with a fixed-shape error (reviewed)",
-	"(*rpc.Request).ErrorResponse":      "recursion only on a marshal error with a fixed-shape error (reviewed)",
+	"(*server.Subscription).traverse": "guard: gcStateStop returned for visited nodes by tryDelete's visitors (reviewed)",
+	"server.jsonEncodeError":          "recursion only on a marshal error with a fixed-shape error (reviewed)",
+	"(*rpc.Request).ErrorResponse":    "recursion only on a marshal error with a fixed-shape error (reviewed)",
 	"(*server.Subscription).Dispose + (*server.Subscription).unsubscribeRefs + (*server.wsConn).Unsubscribe + (*server.wsConn).removeCount + (*server.wsConn).tryDelete": "guard: unsubscribeRefs passes tryDelete=false and removeCount calls tryDelete only when asked (DOM/ref-shapes)",
 }
 
